@@ -961,3 +961,7 @@ mutant("C06-M50", "C06", "R06o", "timed function parameters no longer flagged fo
 mutant("C04-M40", "C04", "R04b", "initial flush skips junctions without a setup weight (seeded C04i)", M, "Model.flush_junctions", "                j.initial_flush()", "                if self.framework.comps.at[j.name, 'setup weight'] > 0:\n                    j.initial_flush()")
 mutant("C07-M33", "C07", "R07j", "characteristics with a default value get weight 0 when the column is missing (seeded C07i)", FW, "ProjectFramework._sanitize_characteristics", '(~self.characs["databook page"].isna() | ~self.characs["default value"].isna()).astype(float)', '(~self.characs["databook page"].isna()).astype(float)')
 twin("C07-T8", "C07", "default setup weight with the alternatives the other way round", FW, "ProjectFramework._sanitize_characteristics", '(~self.characs["databook page"].isna() | ~self.characs["default value"].isna()).astype(float)', '(~self.characs["default value"].isna() | ~self.characs["databook page"].isna()).astype(float)')
+mutant("C18-M36", "C18", "R18h", "characteristic pages taken from the compartments table (seeded C18i)", FW, "ProjectFramework._validate_characteristics", 'missing_pages = sorted(set(self.characs["databook page"].dropna())', 'missing_pages = sorted(set(self.comps["databook page"].dropna())')
+mutant("C20-M30", "C20", "R20m", "link lookup rebuilt from each parameter's own list (seeded C20i)", M, "Population.relink", "        self.link_lookup = {name: [link for link in self.links if link.name == name] for name in link_names}", "        self.link_lookup = dict()\n        for link in self.links:\n            self.link_lookup[link.name] = link.parameter.links if link.parameter is not None else [link]")
+mutant("C14-M38", "C14", "R14m", "package rescale applied to every year of the members (seeded C14i)", OP, "SpendingPackageAdjustment.set_total_spend", "            ts.insert(t=self.t, v=ts.get(self.t) * spend_factor)", "            ts.vals = [v * spend_factor for v in ts.vals]")
+mutant("C08-M29", "C08", "R08j", "characteristic storage only dropped when the model is pickled (seeded C08i)", M, "Model.process", "        for pop in self.pops:\n            for charac in pop.characs:\n                charac._vals = None\n", "")
